@@ -1,4 +1,141 @@
-import HL.Model.SemTok
+/-
+  C17 — Semantic tokens cover their lexemes and deltas reconstruct the full result.
+  Property theorems only; helper lemmas live in HL/Lemmas/SemTok.lean.
+-/
+import HL.Lemmas.SemTok
+import Std.Data.String.ToNat
 namespace HL.Props.C17
-theorem placeholder : (1 : Nat) = 1 := rfl
+open HL HL.SemTok HL.SemTokSpec HL.Lemmas.SemTok
+
+/-! ## 1. Relative encoding and the client's decoding -/
+
+/-- `decode ∘ encode = id`: a client decoding (in unbounded integers) the array the server
+    encoded (in `uint32`) gets the server's tokens back, for every token list in document order
+    (all fields are `uint32`, i.e. "fit in 32 bits", by typing). -/
+theorem encode_decode (ts : List SemToken) (h : weaklyOrdered (ts.map absOf) = true) :
+    decode (encodeTokens ts) = ts.map absOf := by
+  have := decode_encode_from 0 0 ts (monoFrom_zero_of_weaklyOrdered ts h)
+  simpa [decode, encodeTokens] using this
+
+/-- Out of document order the `uint32` subtraction wraps and the client, which adds in
+    unbounded integers, lands elsewhere: tokens at 0:5 and 0:3 decode to 0:5 and 0:4294967299. -/
+theorem encode_decode_unordered_counterexample :
+    decode (encodeTokens [⟨0, 5, 1, 0, 0⟩, ⟨0, 3, 1, 0, 0⟩])
+      = [⟨0, 5, 1, 0, 0⟩, ⟨0, 4294967299, 1, 0, 0⟩] := by decide
+
+/-! ## 2. Range requests -/
+
+/-- A range request returns the full result restricted to the requested lines
+    (the response of `SemanticTokensRange` is `encodeTokens (filterByRange lo hi toks)`,
+    see `HL.SemTok.step`). -/
+theorem range_is_restriction (ts : List SemToken) (lo hi : UInt32)
+    (h : weaklyOrdered (ts.map absOf) = true) :
+    decode (encodeTokens (filterByRange lo hi ts))
+      = restrict lo.toNat hi.toNat (decode (encodeTokens ts)) := by
+  have hf : weaklyOrdered ((filterByRange lo hi ts).map absOf) = true := by
+    have : (filterByRange lo hi ts).map absOf
+        = (ts.map absOf).filter (fun a => lo.toNat ≤ a.line && a.line ≤ hi.toNat) := by
+      simp only [filterByRange, List.filter_map]
+      congr 1
+    rw [this]
+    exact weaklyOrdered_filter _ _ h
+  rw [encode_decode _ hf, encode_decode _ h]
+  simp only [filterByRange, restrict, List.filter_map]
+  congr 1
+
+/-! ## 3. Edits -/
+
+/-- Applying the computed edits to the old array yields the new array, for all arrays the
+    protocol can address (`deleteCount` is a `uint32`). -/
+theorem computeEdits_correct (old new : Data) (h : old.length < 2 ^ 32) :
+    applyEdits old (computeEdits old new) = new :=
+  computeEdits_apply old new h
+
+/-- What the `uint32(len(oldData))` conversion does beyond that: at 2^32 elements the delete
+    count wraps to 0 and the client keeps the whole old array behind the new one. -/
+theorem computeEdits_wraps (old new : Data) (h : old.length = 2 ^ 32) (hne : old ≠ new) :
+    applyEdits old (computeEdits old new) = new ++ old := by
+  have : (old == new) = false := by simpa using hne
+  simp [computeEdits, this, applyEdits_single, applyEdit, u32, h]
+
+/-! ## 4. Histories: the client's array always equals the full result
+
+  Server state `Srv` = result-id counter, cache `uri ↦ (id, data)`, open documents.  The tokenizer
+  is a parameter (`cfg.tok`), so everything below holds for every tokenizer.  The client
+  (`HL.SemTokSpec.Client`) remembers every result by (document, result id) and applies a delta to
+  the array it remembers for the `previousResultId` it sent. -/
+
+variable {δ : Type}
+
+/-- The states the theorems start from: nothing cached (any counter value: `tokenCache` is
+    shared by all servers of a process), any open documents whose arrays are addressable. -/
+theorem good_init (cfg : Cfg δ) (n : UInt64) (docs : List (Uri × δ)) (c : Client)
+    (hd : ∀ u d, getDoc docs u = some d → fits cfg d) :
+    Good cfg { next := n, cache := [], docs := docs } c :=
+  ⟨fun _ _ h => by simp [Cache.get] at h, hd, fun _ _ h => by simp [Cache.get] at h⟩
+
+/-- **delta_reconstructs.**  For every history `reqs` (any length; any number of documents;
+    text changes, closes, full, range and delta requests carrying any `previousResultId` —
+    current, stale, another document's, never issued) and every further full or delta request
+    `rq` on a document `u`: after the response the array the client shows for `u` equals the
+    full result for `u`'s current text. -/
+theorem delta_reconstructs (cfg : Cfg δ) (s : Srv δ) (c : Client) (hg : Good cfg s c)
+    (reqs : List (Req δ)) (rq : Req δ) (u : Uri)
+    (hfit : ∀ r ∈ reqs ++ [rq], FitsReq cfg r)
+    (hrq : rq = .full u ∨ ∃ p, rq = .delta u p) :
+    let sc := run cfg (s, c) (reqs ++ [rq])
+    sc.2.shown u = some (fullData cfg sc.1 u) := by
+  have hg' := run_good cfg s c reqs hg (fun r hr => hfit r (List.mem_append_left _ hr))
+  have := (step_good cfg _ _ rq hg' (hfit rq (by simp))).2 u hrq
+  simpa [run_append, run] using this
+
+/-- The invariant behind it, at every point of every history: "equal ids ⇒ equal data" —
+    what the server has cached for a document under an id is what the client remembers under
+    that document and id. -/
+theorem equal_ids_equal_data (cfg : Cfg δ) (s : Srv δ) (c : Client) (hg : Good cfg s c)
+    (reqs : List (Req δ)) (hfit : ∀ r ∈ reqs, FitsReq cfg r) (u : Uri) (e : Cached) :
+    let sc := run cfg (s, c) reqs
+    sc.1.cache.get u = some e → sc.2.lookup u e.id = some e.data :=
+  (run_good cfg s c reqs hg hfit).inv u e
+
+/-- Result ids are fresh: the ids issued during any history are pairwise different, as long as
+    the 64-bit counter does not overflow (2^64 responses). -/
+theorem ids_fresh (cfg : Cfg δ) (s : Srv δ) (reqs : List (Req δ))
+    (h : s.next.toNat + reqs.length < 2 ^ 64) :
+    (issued cfg s reqs).Pairwise (· ≠ ·) :=
+  (issued_range cfg s reqs h).2
+
+/-- The same for an editor-like client that keeps only its latest result per document, provided
+    each delta request names the result the client holds (a *conforming* history). -/
+theorem delta_reconstructs_latest_only (cfg : Cfg δ) (s : Srv δ) (c : Client1)
+    (hg : Good1 cfg s c) (reqs : List (Req δ)) (rq : Req δ) (u : Uri)
+    (hfit : ∀ r ∈ reqs ++ [rq], FitsReq cfg r)
+    (hconf : conformingRun cfg (s, c) (reqs ++ [rq]))
+    (hrq : rq = .full u ∨ ∃ p, rq = .delta u p) :
+    let sc := run1 cfg (s, c) (reqs ++ [rq])
+    (Client1.get sc.2 u).map (·.2) = some (fullData cfg sc.1 u) :=
+  run1_good cfg s c reqs rq hg hfit hconf u hrq
+
+theorem good1_init (cfg : Cfg δ) (n : UInt64) (docs : List (Uri × δ)) (c : Client1)
+    (hd : ∀ u d, getDoc docs u = some d → fits cfg d) :
+    Good1 cfg { next := n, cache := [], docs := docs } c :=
+  ⟨fun _ _ _ h => by simp [Cache.get] at h, fun _ _ h => by simp [Cache.get] at h, hd,
+   fun _ _ h => by simp [Cache.get] at h⟩
+
+/-- Why the latest-only client must be conforming: a document is tokenized (result "1"), becomes
+    empty (the answer carries no result id and the cache keeps result "1"), gets its text back,
+    and the client — which now holds the empty array — asks for a delta against the stale id
+    "1".  The server answers "no edits" and the client keeps showing nothing.  (The remembering
+    client of `delta_reconstructs` applies the delta to the array it remembers for "1".) -/
+def cfgB : Cfg Bool := { isEmpty := fun d => !d, tok := fun d => if d then [⟨0, 0, 1, 0, 0⟩] else [] }
+def staleHistory : List (Req Bool) :=
+  [.setDoc "u" true, .full "u", .setDoc "u" false, .full "u", .setDoc "u" true, .delta "u" "1"]
+
+theorem latest_only_stale_id_counterexample :
+    (Client1.get (run1 cfgB ({}, []) staleHistory).2 "u").map (·.2) = some [] ∧
+    fullData cfgB (run1 cfgB ({}, []) staleHistory).1 "u" = [0, 0, 1, 0, 0] := by decide +kernel
+
+/-- ... and the remembering client on the same history does show the full result. -/
+example : (run cfgB ({}, {}) staleHistory).2.shown "u" = some [0, 0, 1, 0, 0] := by decide +kernel
+
 end HL.Props.C17
